@@ -222,12 +222,14 @@ _OPS = None
 
 
 def _pool():
-    return [expr.OpDup(), expr.OpLit(5), expr.OpConst2S(-2), expr.OpBReg(3, -9), expr.OpConstU(300), expr.OpConst8U(2 ** 40)]
+    # (OpAddr: the one operation whose size depends on the pointer size of the target)
+    return [expr.OpDup(), expr.OpLit(5), expr.OpConst2S(-2), expr.OpBReg(3, -9), expr.OpConstU(300), expr.OpConst8U(2 ** 40), expr.OpAddr(0x1234), expr.OpAddr(0)]
 
 
 def _ipool():
     return [cfi.InstNop(), cfi.InstDefCFA(7, 8), cfi.InstOffset(3, 2), cfi.InstRestore(5), cfi.InstRememberState(),
-            cfi.InstDefCFAExpression([expr.OpBReg(7, 8), expr.OpLit(3)]), cfi.InstValOffsetSF(300, -70000)]
+            cfi.InstDefCFAExpression([expr.OpBReg(7, 8), expr.OpLit(3)]), cfi.InstValOffsetSF(300, -70000),
+            cfi.InstValExpression(3, [expr.OpAddr(0x1000), expr.OpDeref()]), cfi.InstDefCFAExpression([expr.OpAddr(0x20)])]
 
 
 def _lens(model, prefix):
